@@ -95,9 +95,9 @@ def parse_operand(tok, var, vec_names, scalar_names):
     raise TranslateError("operand outside the grammar: %r" % tok)
 
 
-def loop_term(lo, himinus, dst, inplace, args):
-    return "{ lo := %s, hiMinus := %s, dst := %s, inPlace := %s, args := [%s] }" % (
-        lo, himinus or 0, dst, "true" if inplace else "false", ", ".join(args))
+def loop_term(lo, himinus, dst, inplace, args, by_ref=False):
+    return "{ lo := %s, hiMinus := %s, dst := %s, inPlace := %s, args := [%s], scalarByRef := %s }" % (
+        lo, himinus or 0, dst, "true" if inplace else "false", ", ".join(args), "true" if by_ref else "false")
 
 
 def parse_statement(stmt, var, sym, vec_names, scalar_names):
@@ -254,11 +254,10 @@ def translate_loop_hh(src):
             vecs, scalars = sig_operands(sig)
             vec_names = (["(*this)"] if short in ("PREFIX_OP", "UNARY_OP", "ASSIGNMENT_OP") else []) + vecs
             dst, inplace, args = parse_statement(stmt, var, sym, vec_names, scalars)
-            if inplace and sig_operands.by_reference:
-                # the loop writes the lanes of *this while it keeps reading the scalar: `v += lane(k, v)` would see the
-                # scalar change under its feet; the model (and the specification) take the scalar by value
-                raise TranslateError("%s: scalar operand %s of an in-place operator is passed by reference"
-                                     % (name, sig_operands.by_reference))
+            # parameter-passing mode of the scalar operand: for an in-place operator a scalar taken by reference may alias a
+            # lane of *this (`v += lane(k, v)`) and then changes under the loop's feet; the mode is part of the shape, the
+            # model executes the aliasing semantics accordingly, the theorems need `scalarByRef = false` for in-place loops
+            by_ref = bool(sig_operands.by_reference) and ".scalar" in args
             # whatever else the overload does must be the declaration of `out`, the pragma and the return
             rest = nospace(FOR_RE.sub("", fbody))
             rest = rest.replace("DUNE_PRAGMA_OMP_SIMD", "")
@@ -273,7 +272,7 @@ def translate_loop_hh(src):
             k = seen.get(f, 0)
             seen[f] = k + 1
             lname = "loop_%s_%s%s" % (short, f, "" if k == 0 else str(k + 1))
-            loops[lname] = loop_term(lo, himinus, dst, inplace, args)
+            loops[lname] = loop_term(lo, himinus, dst, inplace, args, by_ref)
         if not seen:
             raise TranslateError("%s: no per-lane loop found" % name)
 
@@ -568,13 +567,16 @@ def translate(repo):
          "  | vec (which : Nat) (ix : Ix) | scalar",
          "  deriving DecidableEq, Repr",
          "",
-         "/-- `for (i = lo; i < S - hiMinus; i++) dst[dst] = OP(args...)`; `inPlace`: the destination is `*this` -/",
+         "/-- `for (i = lo; i < S - hiMinus; i++) dst[dst] = OP(args...)`; `inPlace`: the destination is `*this`;",
+         "    `scalarByRef`: how the scalar operand (if any) is passed -/",
          "structure Loop where",
          "  lo : Nat",
          "  hiMinus : Nat",
          "  dst : Ix",
          "  inPlace : Bool",
          "  args : List Opd",
+         "  /-- the scalar parameter is taken by reference (`const Scalar<T>&`) instead of by value -/",
+         "  scalarByRef : Bool",
          "  deriving DecidableEq, Repr",
          "",
          "inductive RedKind where",
